@@ -128,7 +128,7 @@ def _regen_crctable(ctx):
 # translator's subset is a broken tie (kind `tool`): the unit's file is replaced by a stub that does not compile.
 GO2LEAN_UNITS = ('crc16', 'basetype', 'proto', 'decoder', 'decoderbits', 'encoder',
                  # units of translators/go2lean/targets_*.go (one file per unit)
-                 'encoderlru', 'protomarshal', 'readbuffer', 'rawsize', 'kitint', 'decodersize')
+                 'encoderlru', 'protomarshal', 'readbuffer', 'readbuffercap', 'rawsize', 'kitint', 'decodersize')
 
 def _go2lean_step(unit):
     def step(ctx):
@@ -645,7 +645,10 @@ def prove(ctx, spec):
     proof = dict(obligations=0, discharged=0, axioms={}, checker_cmd=f'lake build FitProps.{prop} && lake env lean Audit/{prop}.lean  (#print axioms ⊆ {{propext, Classical.choice, Quot.sound}})')
     for r in spec.get('regen', []):
         if not REGEN[r](ctx):
-            return proof
+            if not r.startswith('go2lean:'):
+                return proof
+            # a unit whose translation failed leaves a stub that does not compile: go on to the build, so that the agreement
+            # theorems over the OTHER units (and everything that does not import the stub) are still checked and reported
     required = spec.get('theorems', [])
     ok, out = lake_build(ctx, [f'FitProps.{m}' for m in prop_modules(prop)] + spec.get('lean_extra_targets', []))
     try:
